@@ -36,7 +36,7 @@ def check(run):
         bind.check_unpacks(run, repo, m)
         for c, t, h in repo.callees(m):
             if h == 'name' and t[0].name == 'stabilizer_measure':
-                args = [norm(a) for a in c.args]
+                args = K.actual_texts(t[0], c)
                 obs = m.posparams[1]
                 run.check(args[:5] == ['self.gs', 'self.ps', '%s.gs' % obs, '%s.ps' % obs, 'self.r'], 'R2.measure', m, c,
                           'measure(obs) must hand (self.gs, self.ps, obs.gs, obs.ps, self.r) to the kernel')
